@@ -368,6 +368,15 @@ def main():
             binaries[True] = build(True, rundir)[0]
         replay_bin = binaries[True] if cfg.get("replay_race") else binaries[False]
 
+        if replay and replay.endswith(".txt"):
+            # a saved race-detector report: it is the evidence; the schedule is not replayable, so the
+            # property's race-built jobs are run again (the report is shown first)
+            log(open(replay).read()[:6000])
+            replay = None
+            cfg = dict(cfg)
+            for tr in ("quick", "thorough"):
+                cfg[tr] = [it for it in cfg[tr] if it.get("race")] or cfg[tr]
+            PROPS[pid] = cfg
         if replay:
             j = run_replay(replay_bin, os.path.abspath(replay), rundir, "user")
             m = VIOL_RE.search(j.out)
@@ -461,6 +470,18 @@ def main():
                             break
                     if confirmed:
                         break
+            if not confirmed and "WARNING: DATA RACE" in j.out:
+                # A report of Go's race detector is evidence by itself (it has no false positives),
+                # also when the schedule cannot be reproduced from a journalled case. It counts when
+                # the racing accesses are in pongo2 (not in the harness).
+                at = j.out.index("WARNING: DATA RACE")
+                report = j.out[at:at + 6000]
+                if "github.com/flosch/pongo2/v6." in report:
+                    dst = os.path.join(REPLAYS, f"{pid}-race-{hashlib.sha1(report.encode()).hexdigest()[:16]}.txt")
+                    with open(dst, "w") as f:
+                        f.write(f"worker: {' '.join(j.argv)}\nGOMAXPROCS={j.env.get('GOMAXPROCS', '')}\n\n{report}")
+                    violations.append((dst, "race detector report (not reproduced from a single case; the report is the evidence): " + last_lines(report, 14)))
+                    confirmed = True
             if not confirmed:
                 infra.append(f"{j.name}: abnormal exit {j.rc}, not attributable to a case:\n{tail}")
 
